@@ -224,6 +224,32 @@ def c03_claims(params, tier):
     return [("c03_claims:%s" % sorted(p.items()), b.h, U, {})]
 
 
+@family("C03", "C07", "C14")
+def c03_double_release(params, tier):
+    """A and B hold a nameplate; A releases (once or twice, on new connections); B claims again: same id."""
+    if params is None:
+        return [{"twice": t, "restart": r, "usage": u} for t in (1, 2, 3) for r in (0, 1) for u in (0, 1)]
+    p = params
+    b = HB()
+    A = b.conn("app", "s1")
+    b.send(A, type="claim", nameplate="6")
+    B = b.conn("app", "s2")
+    b.send(B, type="claim", nameplate="6")
+    b.send(A, type="release")
+    for i in range(p["twice"] - 1):
+        A2 = b.conn("app", "s1")
+        b.send(A2, type="release", nameplate="6")
+    if p["restart"]:
+        b.restart()
+    L = b.conn("app", "s4")
+    b.send(L, type="list")
+    B2 = b.conn("app", "s2")
+    b.send(B2, type="claim", nameplate="6")
+    b.send(B2, type="release")
+    b.send(L, type="list")
+    return [("c03_double_release:%s" % sorted(p.items()), b.h, U if p["usage"] else NU, {})]
+
+
 @family("C05")
 def c05_third(params, tier):
     if params is None:
@@ -483,6 +509,42 @@ def c12_cutoff(params, tier):
     return [("c12_cutoff:%s" % sorted(p.items()), b.h, U if p["usage"] else NU, {})]
 
 
+@family("C12")
+def c12_away(params, tier):
+    """A client stays connected but silent for a long time (sweeps keep its channel alive), goes away for
+    less than expiration minus one period, and comes back: everything must still be there."""
+    if params is None:
+        return [{"silent": s, "away": a, "other_expires": o, "restart": r, "usage": u}
+                for s in (700, 1000, 3000) for a in (60, 299.875, 359) for o in (0, 1) for r in (0, 1) for u in (0, 1)]
+    p = params
+    b = HB()
+    b.tag = "c12a"
+    if p["other_expires"]:
+        O = b.conn("app", "s3")
+        b.send(O, type="open", mailbox="mOld")
+        b.add(O, "old")
+        b.drop(O)
+    b.adv(10)
+    S = b.conn("app", "s1")
+    b.send(S, type="claim", nameplate="2")
+    b.send(S, type="open", mailbox=claimed(S))
+    b.add(S, "kept")
+    b.adv(p["silent"])
+    if p["restart"]:
+        b.restart()          # the restart drops the subscription; the client is away from now on
+    else:
+        b.drop(S)
+    b.adv(p["away"])
+    R = b.conn("app", "s1")
+    b.send(R, type="claim", nameplate="2")
+    b.send(R, type="open", mailbox=claimed(S))
+    b.add(R, "back")
+    P = b.conn("app", "s2")
+    b.send(P, type="claim", nameplate="2")
+    b.send(P, type="open", mailbox=claimed(S))
+    return [("c12_away:%s" % sorted(p.items()), b.h, U if p["usage"] else NU, {})]
+
+
 @family("C15", "C16")
 def c15_paths(params, tier):
     if params is None:
@@ -616,6 +678,43 @@ def c17_state_x_cmd(params, tier):
         elif st == "claimed" and cmd.get("type") not in ("release",):
             b.send(X, type="release", nameplate="5")
         out.append(("c17:%s:%d" % (st, ci), b.h, cfgs[p["cfg"]], {}))
+    return out
+
+
+@family("C17")
+def c17_every_slot(params, tier):
+    """Every hostile string in every identifier slot (appid, side, nameplate, mailbox, phase, body, id, mood),
+    with list / second client / release / close around it."""
+    from .gen import HOSTILE
+    if params is None:
+        return [{"i": i} for i in range(len(HOSTILE))]
+    h = HOSTILE[params["i"]]
+    out = []
+    for slot in ("all", "nameplate", "appside"):
+        b = HB()
+        app = h if slot in ("all", "appside") else "app"
+        side = h if slot in ("all", "appside") else "s1"
+        X = b.conn(app, side, client_version=[h, h])
+        b.send(X, type="claim", nameplate=h, id=h)
+        b.send(X, type="list")
+        Y = b.conn(app, "other-side")
+        b.send(Y, type="list")
+        b.send(Y, type="claim", nameplate=h)
+        b.send(Y, type="allocate")
+        b.send(Y, type="list")
+        mb = h if slot == "all" else claimed(X)
+        b.send(X, type="open", mailbox=mb)
+        b.send(X, type="add", phase=h, body=h + "-c17slot", id=h)
+        b.send(Y, type="open", mailbox=mb)
+        b.send(Y, type="add", phase="p", body="c17slot-reply-" + h)
+        b.send(X, type="release", nameplate=h)
+        b.send(Y, type="release")
+        b.send(X, type="list")
+        b.send(X, type="close", mailbox=mb, mood=h)
+        b.send(Y, type="close", mood=h)
+        b.send(X, type="ping", ping=h)
+        b.adv(1300)
+        out.append(("c17_every_slot:%d:%s" % (params["i"], slot), b.h, Config(usage=True, blur=None if params["i"] % 2 else 60), {}))
     return out
 
 
